@@ -45,6 +45,10 @@ CInit ==
 Bad(S, p, w) == IF S.ok THEN [S EXCEPT !.ok = FALSE, !.prop = p, !.why = w] ELSE S
 
 StartsWith(s, p) == Len(s) >= Len(p) /\ SubSeq(s, 1, Len(p)) = p
+Contains(s, p) == \E i \in 1..(Len(s) - Len(p) + 1) : SubSeq(s, i, i + Len(p) - 1) = p
+\* A panic is charged to the property whose code raised it: the discoverer and lifetime modules
+\* belong to C19, everything else to C06.
+PanicProp(m) == IF Contains(m, "src/discoverer") \/ Contains(m, "src/lifetime") THEN "C19" ELSE "C06"
 
 \* C04 (client level, completeness): between the first event a subscriber received (or the
 \* acknowledgement of its subscription) and the event `upto`, every matching event that actually
@@ -146,8 +150,12 @@ OnFact(S, r) ==
     [] r.what = "devent" ->
          \* C19: created / destroyed alternate per entry and object, starting with created
          LET key == <<r.task, r.d.key, r.d.u>>
-             last == IF key \in DOMAIN S.dlast THEN S.dlast[key] ELSE FALSE IN
-         IF r.d.created = last THEN Bad(S, "C19", "the discoverer emitted two created or two destroyed events in a row for one object")
+             last == IF key \in DOMAIN S.dlast THEN S.dlast[key] ELSE FALSE
+             specs == {i \in 1..Len(S.dspec) : S.dspec[i].key = r.d.key} IN
+         IF specs = {} THEN Bad(S, "C19", "the discoverer emitted an event for an entry key that was never added")
+         ELSE IF \E i \in specs : S.dspec[i].obj # 0 /\ S.dspec[i].obj # r.d.u
+           THEN Bad(S, "C19", "an entry for one specific object reported an event about a different object")
+         ELSE IF r.d.created = last THEN Bad(S, "C19", "the discoverer emitted two created or two destroyed events in a row for one object")
          ELSE [S EXCEPT !.dlast = Put(@, key, r.d.created)]
     [] r.what = "dview" -> ViewCheck(S, r)
     [] OTHER -> S
@@ -166,10 +174,14 @@ CStep(S0, r) ==
     [] r.t = "fault" -> [S EXCEPT !.faulty = @ \cup {r.cl}]
     [] r.t = "cause" -> [S EXCEPT !.cause = r.cause]
     [] r.t = "quiescent" ->
-         IF r.unfinished THEN Bad(S, "C06", "the system is quiescent but an application task is still waiting (lost wake-up or deadlock)")
+         IF r.panics # <<>> THEN Bad(S, PanicProp(r.panics[1]), "a task panicked: " \o r.panics[1])
+         \* after an injected fault or a termination cause a hanging operation is C15's subject
+         \* (pending operations resolve, the broker cleans the lost connection up); otherwise C06's
+         ELSE IF r.unfinished THEN Bad(S, IF S.cause # "" THEN "C15" ELSE "C06",
+                "the system is quiescent but an application task is still waiting (lost wake-up or deadlock)")
          ELSE [S EXCEPT !.quiescent = TRUE]
     [] r.t = "task" ->
-         IF r.st = "panic" THEN Bad(S, "C06", "an application task panicked: " \o r.msg)
+         IF r.st = "panic" THEN Bad(S, PanicProp(r.msg), "an application task panicked: " \o r.msg)
          ELSE IF r.st = "running" THEN Bad(S, "C06", "an application task never finished")
          ELSE S
     [] r.t = "run" ->
@@ -188,7 +200,9 @@ CStep(S0, r) ==
          ELSE IF StartsWith(r.broker, "panic") THEN Bad(S, "C06", "the broker panicked: " \o r.broker)
          \* a connection task that was dropped and never addressed again stays registered by design
          \* (DESIGN 2.5), so the idle shutdown cannot complete in that case
-         ELSE IF r.broker # "done" /\ S.cause # "dropconn" THEN Bad(S, "C06", "the broker asked to stop when idle did not stop after all clients were gone")
+         ELSE IF r.broker # "done" /\ S.cause # "dropconn" THEN
+                Bad(S, IF S.cause # "" THEN "C15" ELSE "C06",
+                    "the broker asked to stop when idle did not stop after all clients were gone (a connection is still registered)")
          ELSE IF S.open # {} THEN Bad(S, "C15", "an operation was still pending at the end")
          ELSE IF S.foundEarly # {} THEN Bad(S, "C19", "an object was found that nobody created")
          ELSE S
